@@ -16,7 +16,7 @@ import (
 
 var linkIgnoreReasons = []string{"can't converted to abs url", "not prefix + number", "not prefix", "can't be cleaned", "same as current or folder url", "link text too long", "no number beyond folder url"}
 
-func addLinkScoreCases(c *Corr, rep *Report, src string, page *nurl.URL, replay interface{}) {
+func addLinkScoreCases(c *Corr, fo *Corr, rep *Report, src string, page *nurl.URL, replay interface{}) {
 	d := parseDoc(src)
 	cur, folder, prefix, ok := distiller.VerifPrevNextContext(page)
 	if !ok {
@@ -24,7 +24,8 @@ func addLinkScoreCases(c *Corr, rep *Report, src string, page *nurl.URL, replay 
 		return
 	}
 	for _, findNext := range []bool{true, false} {
-		links, _ := distiller.VerifPrevNext(d.Root, page, findNext)
+		links, result := distiller.VerifPrevNext(d.Root, page, findNext)
+		var all []string
 		for _, l := range links {
 			var id int
 			fmt.Sscanf(l.Vid, "%d", &id)
@@ -74,15 +75,20 @@ func addLinkScoreCases(c *Corr, rep *Report, src string, page *nurl.URL, replay 
 					ps = append(ps, hx(getAttr(p, "class"))+" "+hx(getAttr(p, "id")))
 				}
 			}
-			payload := fmt.Sprintf("%s %s %s %s %s %s %s %s %s %s %s %s %s %d %s %s %d", b01(findNext), b01(err1 == nil), b01(hasPrefix), b01(restDigit), b01(err2 == nil),
+			facts := fmt.Sprintf("%s %s %s %s %s %s %s %s %s %s %s %s %d %s %s %d", b01(err1 == nil), b01(hasPrefix), b01(restDigit), b01(err2 == nil),
 				hx(href), b01(strings.ToLower(href) == strings.ToLower(cur)), b01(strings.ToLower(href) == strings.ToLower(folder)), b01(inFolder), hx(rem), hx(text),
 				hx(getAttr(n, "class")), hx(getAttr(n, "id")), len(ps), strings.Join(ps, " "), hx(cur), len(prefix))
-			c.add(payload, impl, replay)
+			all = append(all, facts)
+			c.add(b01(findNext)+" "+facts, impl, replay)
 			kind := impl
 			if strings.HasPrefix(impl, "C:") {
 				kind = "candidate"
 			}
 			rep.hist("linkscore:" + kind)
+		}
+		if fo != nil {
+			// the whole finder: the facts about every anchor in, the link it returns out
+			fo.add(fmt.Sprintf("%s %d %s", b01(findNext), len(all), strings.Join(all, " ")), hx(result), replay)
 		}
 	}
 }
